@@ -28,6 +28,8 @@ def int32():
         st.integers(-20, 20),
         st.integers(-1000, 1000),
         st.integers(INT_MIN, INT_MAX),
+        # magnitudes whose pairwise products leave int32 (2^15 .. 2^17), either sign
+        st.builds(lambda m, neg: -m if neg else m, st.integers(1 << 15, 1 << 17), st.booleans()),
     )
 
 
@@ -669,9 +671,28 @@ def feedback_program(draw, early_virtual=True):
         stmts.append(Decl("Signal", n, SigLit(types.pop(), draw(num(st.integers(1, 9))))))
         held.append(n)
     stmts.append(MemDecl("m", mty if explicit else None))
-    k = draw(st.integers(1, 6))
+    # k = 1 folds the whole cell into one self-wired combinator: its own code path, weighted up
+    k = draw(st.sampled_from([1, 1, 1, 2, 2, 3, 4, 5, 6]))
     named = draw(st.booleans())
-    cur = MemRead("m")
+    # source order: the cell may be read once into a name that both the chain and the readers
+    # consume, and the readers may be declared before the write
+    read_first = draw(st.integers(0, 2)) == 0
+    readers_first = draw(st.booleans())
+    base = Ref("t0") if read_first else MemRead("m")
+    reader_stmts = [Decl("Signal", "r0", MemRead("m"))]
+    for i in range(draw(st.integers(0, 2))):
+        rb = base if draw(st.booleans()) else MemRead("m")
+        op = draw(st.sampled_from(["+", "*", "XOR", ">", "%"]))
+        rhs = Num(draw(st.sampled_from([3, 4, 10]))) if op == "%" else draw(num(small_int()))
+        e = Bin(op, rb, rhs)
+        if draw(st.integers(0, 3)) == 0 and types:
+            e = Proj(e, types.pop())
+        reader_stmts.append(Decl("Signal", f"r{i + 1}", e))
+    if read_first:
+        stmts.append(Decl("Signal", "t0", MemRead("m")))
+    if readers_first:
+        stmts.extend(reader_stmts)
+    cur = base
     free_held = list(held)
     for i in range(k):
         op = draw(st.sampled_from(["+", "+", "*", "%", "-", "XOR", "AND", "OR", "/", "<<", ">>"]))
@@ -698,10 +719,8 @@ def feedback_program(draw, early_virtual=True):
         stmts.append(Decl("Signal", "sx", cur))
         cur = Cond(Bin("<", Ref("sx"), Num(draw(st.integers(50, 5000)))), Ref("sx"))
     stmts.append(Write("m", cur, None))
-    stmts.append(Decl("Signal", "r0", MemRead("m")))
-    for i in range(draw(st.integers(0, 2))):
-        e = Bin(draw(st.sampled_from(["+", "*", "XOR", ">"])), MemRead("m"), draw(num(small_int())))
-        stmts.append(Decl("Signal", f"r{i + 1}", e))
+    if not readers_first:
+        stmts.extend(reader_stmts)
     return Program(tuple(stmts))
 
 
@@ -778,6 +797,38 @@ def grid_positions(draw, n, spread=6, neg=True):
     cells = draw(st.lists(st.tuples(st.integers(-3 if neg else 0, 6), st.integers(-3 if neg else 0, 4)),
                           min_size=n, max_size=n, unique=True))
     return [(cx * spread, cy * spread) for cx, cy in cells]
+
+
+@st.composite
+def balanced_program(draw):
+    """Sources that each enter two merges, one of which feeds the other ("balanced loader"):
+    total = {s1..sn}; f = total op k; d_i = {f, s_i}; one consumer per d_i. Sources are chest outputs;
+    0-8 unrelated statements come first so that internal numbering varies in digits."""
+    n = draw(st.integers(2, 4))
+    stmts = []
+    for i in range(draw(st.one_of(st.integers(0, 3), st.integers(0, 12), st.integers(36, 60)))):
+        stmts.append(Decl("Signal", f"pad{i}", Num(i + 1)))
+    # sources are container outputs: their member types are unknown at compile time, so the same
+    # source may legally reach a bundle twice (typed constants would be refused as duplicates)
+    chests = True
+    srcs = []
+    proto = draw(st.sampled_from(["steel-chest", "iron-chest", "wooden-chest"]))
+    for i in range(n):
+        stmts.append(Decl("Entity", f"chest{i + 1}", Place(proto, Num(i), Num(0))))
+        srcs.append(PropRead(f"chest{i + 1}", "output"))
+    order = draw(st.permutations(range(n)))
+    stmts.append(Decl("Bundle", "total", BLit(tuple(srcs[i] for i in order))))
+    stmts.append(Decl("Bundle", "f", Bin(draw(st.sampled_from(["/", "*"])), Ref("total"), Num(-n))))
+    for i in draw(st.permutations(range(n))):
+        members = (Ref("f"), srcs[i]) if draw(st.booleans()) else (srcs[i], Ref("f"))
+        stmts.append(Decl("Bundle", f"d{i + 1}", BLit(members)))
+    for i in range(n):
+        if chests or draw(st.booleans()):
+            stmts.append(Decl("Entity", f"load{i + 1}", Place("fast-inserter", Num(i), Num(-1))))
+            stmts.append(Assign(f"load{i + 1}", "enable", Bin("<", AllOf(Ref(f"d{i + 1}")), Num(0))))
+        else:
+            stmts.append(Decl("Bundle", f"o{i + 1}", Bin("+", Ref(f"d{i + 1}"), Num(1))))
+    return Program(tuple(stmts))
 
 
 @st.composite
@@ -1038,7 +1089,7 @@ from .lang import IntV as lang_IntV  # noqa: E402
 
 
 @st.composite
-def loop_case(draw, tier="quick", avoid_shadow=True):
+def loop_case(draw, tier="quick", avoid_shadow=False):
     """(program with loops, its manual unrolling, info)."""
     pal = Palette(True)
     types = list(draw(st.permutations(pal.types)))
@@ -1106,6 +1157,30 @@ def loop_case(draw, tier="quick", avoid_shadow=True):
         else:
             stmts.append(For(var, it, tuple(_loop_body(draw, [var], inputs, pal, 10 * li, str(uid)))))
     extraA, extraB = [], []
+    shadow = draw(st.integers(0, 3)) == 0 and not avoid_shadow
+    if shadow:
+        # body-local names and iterators that shadow outer names, and a use of the outer name AFTER the loop
+        from .lang import ExprStmt  # noqa: F401
+
+        info["shadow"] = True
+        kind = draw(st.sampled_from(["local", "iterator"]))
+        outer_v = draw(st.integers(20, 29))
+        vals = draw(st.lists(st.integers(1, 9), min_size=1, max_size=3, unique=True))
+        pre = [Decl("int", "sh", Num(outer_v))]
+        if kind == "local":
+            body = [Decl("int", "sh", Bin("+", Ref("iq"), Num(1))),
+                    Decl("Entity", "shl", Place("small-lamp", Bin("+", Bin("*", Ref("iq"), Num(2)), Num(60)), Num(-50))),
+                    Assign("shl", "enable", Bin(">", Ref(inputs[0]), Ref("sh")))]
+            loop = For("iq", ListIter(tuple(Num(v) for v in vals)), tuple(body))
+        else:
+            body = [Decl("Entity", "shl", Place("small-lamp", Bin("+", Bin("*", Ref("sh"), Num(2)), Num(60)), Num(-50))),
+                    Assign("shl", "enable", Bin(">", Ref(inputs[0]), Ref("sh")))]
+            loop = For("sh", ListIter(tuple(Num(v) for v in vals)), tuple(body))
+        post = [Decl("Entity", "sha", Place("small-lamp", Num(90), Num(-50))),
+                Assign("sha", "enable", Bin(">", Ref(inputs[0]), Ref("sh")))]
+        stmts = pre + stmts + [loop] + post
+        ints = dict(ints)
+        ints["sh"] = outer_v
     if draw(st.integers(0, 3)) == 0:
         # a loop inside a function that configures an Entity parameter (and the same entity again after the loop)
         from .lang import ExprStmt
